@@ -39,6 +39,35 @@ func grid2(bb sdf.Box2, cells int) sk.Grid2 {
 	return sk.Grid2{Origin: bb.ScaleAboutCenter(1.01).Min, Res: 0.5 * (bb.Size().MaxComponent() / float64(cells))}
 }
 
+// number of levels the public renderer uses for this box: a fresh renderer on a field that is huge
+// everywhere evaluates the centre of the top cube only
+func probeLevels3(bb sdf.Box3, cells int, g sk.Grid3) (int, string) {
+	probe := &sk.Recorder3{S: &sk.Fn3{F: func(v3.Vec) float64 { return 1e300 }, BB: bb}}
+	render.NewMarchingCubesOctree(cells).Render(probe, &sk.TriCollector{})
+	if len(probe.P) != 1 {
+		return 0, fmt.Sprintf("probe render of a far-away field evaluated %d points", len(probe.P))
+	}
+	i, j, k, ok := g.Index(probe.P[0])
+	l, ok2 := levelsFromFirst(i)
+	if !ok || !ok2 || i != j || i != k {
+		return 0, fmt.Sprintf("first evaluation %v is not the centre of a top cube of the lattice origin %v res %v", probe.P[0], g.Origin, g.Res)
+	}
+	return l, ""
+}
+func probeLevels2(bb sdf.Box2, cells int, g sk.Grid2) (int, string) {
+	probe := &sk.Recorder2{S: &sk.Fn2{F: func(v2.Vec) float64 { return 1e300 }, BB: bb}}
+	render.NewMarchingSquaresQuadtree(cells).Render(probe, &sk.LineCollector{})
+	if len(probe.P) != 1 {
+		return 0, fmt.Sprintf("probe render of a far-away field evaluated %d points", len(probe.P))
+	}
+	i, j, ok := g.Index(probe.P[0])
+	l, ok2 := levelsFromFirst(i)
+	if !ok || !ok2 || i != j {
+		return 0, fmt.Sprintf("first evaluation %v is not the centre of a top square of the lattice origin %v res %v", probe.P[0], g.Origin, g.Res)
+	}
+	return l, ""
+}
+
 // even index range of the finest cells overlapping [lo, hi] (two cells of margin)
 func cellRange(lo, hi, org, res float64, n int) (int, int) {
 	a := int(math.Floor((lo-org)/res)) - 4
@@ -70,10 +99,9 @@ func (st *state) fine(sp *Spec, stratum string) {
 		rec := &sk.Recorder2{S: &sk.Fn2{F: F.F, BB: bb}}
 		col := &sk.LineCollector{}
 		render.NewMarchingSquaresQuadtree(sp.Cells).Render(rec, col)
-		i0, j0, ok := g.Index(rec.P[0])
-		levels, ok2 := levelsFromFirst(i0)
-		if !ok || !ok2 || i0 != j0 {
-			fail(fmt.Sprintf("first evaluation %v is not the centre of a top square (origin %v res %v)", rec.P[0], g.Origin, g.Res))
+		levels, why := probeLevels2(bb, sp.Cells, g)
+		if why != "" {
+			fail(why)
 			return
 		}
 		n := 1 << uint(levels-1)
@@ -113,10 +141,9 @@ func (st *state) fine(sp *Spec, stratum string) {
 	rec := &sk.Recorder3{S: &sk.Fn3{F: F.F, BB: bb}}
 	col := &sk.TriCollector{}
 	render.NewMarchingCubesOctree(sp.Cells).Render(rec, col)
-	i0, j0, k0, ok := g.Index(rec.P[0])
-	levels, ok2 := levelsFromFirst(i0)
-	if !ok || !ok2 || i0 != j0 || i0 != k0 {
-		fail(fmt.Sprintf("first evaluation %v is not the centre of a top cube (origin %v res %v)", rec.P[0], g.Origin, g.Res))
+	levels, why := probeLevels3(bb, sp.Cells, g)
+	if why != "" {
+		fail(why)
 		return
 	}
 	n := 1 << uint(levels-1)
@@ -323,11 +350,16 @@ func (st *state) reuse(sp *Spec, stratum string) {
 				col := &sk.TriCollector{}
 				o3.Render(rec, col)
 				got = col.T
-				i0, _, _, ok := g.Index(rec.P[0])
-				levels, ok2 := levelsFromFirst(i0)
-				if !ok || !ok2 {
-					fail(fmt.Sprintf("first evaluation %v is not the centre of the top cube of this shape's lattice (origin %v res %v)", rec.P[0], g.Origin, g.Res))
+				levels, why := probeLevels3(bb, sp.Cells, g)
+				if why != "" {
+					fail(why)
 					continue
+				}
+				for e, p := range rec.P {
+					if _, _, _, ok := g.Index(p); !ok {
+						fail(fmt.Sprintf("evaluation %d at %v is not a point of this shape's lattice (origin %v res %v)", e, p, g.Origin, g.Res))
+						break
+					}
 				}
 				ref = sk.Uniform3(sk.Sample3(s, g, 1<<uint(levels-1)))
 			} else {
@@ -357,11 +389,16 @@ func (st *state) reuse(sp *Spec, stratum string) {
 			col := &sk.LineCollector{}
 			q2.Render(rec, col)
 			got = col.L
-			i0, _, ok := g.Index(rec.P[0])
-			levels, ok2 := levelsFromFirst(i0)
-			if !ok || !ok2 {
-				fail(fmt.Sprintf("first evaluation %v is not the centre of the top square of this shape's lattice (origin %v res %v)", rec.P[0], g.Origin, g.Res))
+			levels, why := probeLevels2(bb, sp.Cells, g)
+			if why != "" {
+				fail(why)
 				continue
+			}
+			for e, p := range rec.P {
+				if _, _, ok := g.Index(p); !ok {
+					fail(fmt.Sprintf("evaluation %d at %v is not a point of this shape's lattice (origin %v res %v)", e, p, g.Origin, g.Res))
+					break
+				}
 			}
 			ref = sk.Uniform2(sk.Sample2(s, g, 1<<uint(levels-1)))
 		} else {
